@@ -192,6 +192,20 @@ func canSucceed(r *ssa.Return) bool {
 	if v == nil {
 		return true
 	}
+	// `err = f(); if err != nil { return ..., err }` with err a result cell:
+	// the operand is a load of the cell; it is non-nil when the return is
+	// reachable only through a `!= nil` test on a load of the same cell.
+	if u, ok := v.(*ssa.UnOp); ok && u.Op == token.MUL {
+		if cell := cellOf(u.X); cell != nil {
+			sameCell := func(x ssa.Value) bool {
+				l, ok := x.(*ssa.UnOp)
+				return ok && l.Op == token.MUL && cellOf(l.X) == cell
+			}
+			if g, n := guardedBy(r, cmpFact(sameCell, token.NEQ, vNil(), "")); n > 0 && g {
+				return false
+			}
+		}
+	}
 	for _, o := range errOrigins(v) {
 		if isNilConst(o) {
 			return true
